@@ -709,6 +709,10 @@ class HyASTCompiler:
     @builds_model(Dict)
     def compile_dict(self, m):
         keyvalues, ret, _ = self._compile_collect(m, dict_display=True)
+        if len(keyvalues) % 2:
+            raise self._syntax_error(
+                m, "a dictionary display needs a value for every key"
+            )
         return ret + asty.Dict(m, keys=keyvalues[::2], values=keyvalues[1::2])
 
     @builds_model(Tuple)
